@@ -8,8 +8,9 @@
                                                                             stop = a prefix taken by the caller)
      GetWithIndex     l0_get_with_index   GetAt      l0_get_at            Len  length
 
-   The correspondence pkg/btree ≙ L0 is checked by the driver (degrees 2,3,4 and
-   Gen_C07.defaultBTreeDegree) and, for the structural part, by proof/C07_BTree.v. *)
+   pkg/btree itself is transcribed in model/C07_BTree.v (a Gallina B-tree); proof/C07_BTreeSim.v proves that it
+   refines L0 for every degree >= 2 and every strict weak order; the driver compares both with the real package
+   (degrees 2,3,4 and Gen_C07.defaultBTreeDegree; observations and node shapes). *)
 From Coq Require Import List ZArith Bool.
 Import ListNotations.
 
